@@ -7,6 +7,25 @@ import importlib
 import argparse
 
 
+def _problems_in(res):
+    """problems inside whatever a work function returned (Acc, dict with problem lists, tuple ...)"""
+    from mc import core
+    out = []
+    if isinstance(res, core.Acc):
+        for ps in res.problems.values():
+            out += ps
+    elif isinstance(res, dict):
+        if "sig" in res and "case" in res:
+            out.append(res)
+        else:
+            for v in res.values():
+                out += _problems_in(v)
+    elif isinstance(res, (list, tuple)):
+        for v in res:
+            out += _problems_in(v)
+    return out
+
+
 def main():
     ap = argparse.ArgumentParser()
     ap.add_argument("prop")
@@ -26,7 +45,11 @@ def main():
         with open(args.replay) as f:
             body = json.load(f)
         core.reset_store()
-        probs = mod.replay(body["case"])
+        if isinstance(body["case"], dict) and body["case"].get("history_dependent"):
+            acc, _ = mod.explore(body["case"].get("tier", tier))
+            probs = [p for ps in acc.problems.values() for p in ps]
+        else:
+            probs = mod.replay(body["case"])
         print(f"replay of {args.replay}: {len(probs)} problem(s)")
         print(" recorded signature:", json.dumps(body.get("sig"), sort_keys=True))
         print(" recorded expected :", json.dumps(body.get("expected"), sort_keys=True)[:2000])
@@ -54,19 +77,33 @@ def main():
     known_lines = {}
     for k, plist in sorted(acc.problems.items()):
         prob = plist[0]
-        # determinism gate: the case must fail the same way from a fresh state
+        # determinism gate: the case must fail the same way from a fresh state ...
         core.reset_store()
+        want = core.sig_key(core.jsonable(prob["sig"]))
         try:
-            again = mod.replay(core.jsonable(prob["case"]))
+            again = core.run_isolated(mod.replay, core.jsonable(prob["case"]))
         except Exception as e:  # noqa
             sys.stderr.write(f"HARNESS-ERROR: replay of {k} crashed: {e!r}\n")
             return 2
-        if not any(core.sig_key(core.jsonable(p["sig"])) == core.sig_key(core.jsonable(prob["sig"])) for p in again):
-            sys.stderr.write(
-                "HARNESS-ERROR: problem not reproducible from its replay case "
-                f"(nondeterminism in the harness?): {k}\n"
-            )
-            return 2
+        if not any(core.sig_key(core.jsonable(p["sig"])) == want for p in again):
+            # ... or, if it depends on state the library kept from earlier cases (a module-level cache, a mutated
+            # table), the same way when the block of cases that led to it is re-executed in a fresh process
+            confirmed = False
+            if prob.get("prov") is not None:
+                for res in core.rerun_block(prob["prov"]):
+                    for p in _problems_in(res):
+                        if core.sig_key(core.jsonable(p["sig"])) == want:
+                            confirmed = True
+            if not confirmed:
+                sys.stderr.write(
+                    "HARNESS-ERROR: problem not reproducible from its replay case nor from its block of cases "
+                    f"(nondeterminism in the harness?): {k}\n"
+                )
+                return 2
+            prob = dict(prob)
+            prob["case"] = {"history_dependent": True, "tier": tier, "case": core.jsonable(prob["case"]),
+                            "note": "fails only after the cases that precede it in its worker block (state kept by the "
+                                    "library between calls); replay re-runs the exploration"}
         f = core.match_finding(prop, prob["sig"], findings)
         if f is not None:
             n_known += acc.problem_counts[k]
